@@ -136,15 +136,26 @@ def run_init(ctx, H, rnd, problem):
     from ..seams import install_set_order
 
     install_set_order()
-    spec = {"classes": [{"name": "A0", "kind": "abc", "parent": None, "weight": None, "fields": []},
-                        {"name": "C0", "kind": "data", "parent": "A0", "weight": None, "fields": [["f0", ["ann", ["int"], ["IntRange", 0, 9]]]]},
-                        {"name": "C1", "kind": "data", "parent": "A0", "weight": None, "fields": [["f0", ["cls", "A0"]], ["f1", ["cls", "A0"]]]}],
-            "start": "A0", "considered": ["C0", "C1"]}
+    base = [{"name": "A0", "kind": "abc", "parent": None, "weight": None, "fields": []},
+            {"name": "C0", "kind": "data", "parent": "A0", "weight": None, "fields": [["f0", ["ann", ["int"], ["IntRange", 0, 9]]]]},
+            {"name": "C1", "kind": "data", "parent": "A0", "weight": None, "fields": [["f0", ["cls", "A0"]], ["f1", ["cls", "A0"]]]}]
+    shape = H.draw(3)
+    if shape == 0:
+        spec = {"classes": base, "start": "A0", "considered": ["C0", "C1"]}
+    elif shape == 1:
+        # concrete start symbol: minimum tree depth 2
+        spec = {"classes": base + [{"name": "D0", "kind": "data", "parent": None, "weight": None, "fields": [["f0", ["cls", "A0"]], ["f1", ["bool"]]]}],
+                "start": "D0", "considered": ["C0", "C1", "D0"]}
+    else:
+        # minimum tree depth 3
+        spec = {"classes": base + [{"name": "D0", "kind": "data", "parent": None, "weight": None, "fields": [["f0", ["cls", "A0"]]]},
+                                   {"name": "D1", "kind": "data", "parent": None, "weight": None, "fields": [["f0", ["cls", "D0"]], ["f1", ["cls", "A0"]]]}],
+                "start": "D1", "considered": ["C0", "C1", "D0", "D1"]}
     b = Built(spec)
     try:
         g = b.extract()
-        rep = TreeBasedRepresentation(g, MaxDepthDecider(rnd, g, 4))
-        k = H.draw(13)
+        rep = TreeBasedRepresentation(g, MaxDepthDecider(rnd, g, 5))
+        k = H.pick([1, 1, 2, 3, H.draw(13)])
         which = H.weighted([("inject", 4), ("full", 1), ("grow", 1), ("pigrow", 1), ("ramped", 1), ("standard", 1), ("generic", 1), ("half", 2)])
         backup = H.pick(["standard", "grow", "full"])
 
@@ -154,7 +165,7 @@ def run_init(ctx, H, rnd, problem):
 
         injected = None
         if which == "inject":
-            m = H.draw(2 * max(k, 1) + 2)
+            m = H.pick([max(0, k - 1), H.draw(2 * max(k, 1) + 2)])  # often exactly one individual is missing
             progs = []
             for i in range(m):
                 t = rep.create_genotype(rnd)
@@ -167,7 +178,8 @@ def run_init(ctx, H, rnd, problem):
             ctx.nontrivial = True
         else:
             init = mk(which)
-        ctx.sample = {"initializer": which, "requested": k, "injected": injected, "backup": backup if which == "inject" else None}
+        ctx.sample = {"initializer": which, "requested": k, "injected": injected, "backup": backup if which == "inject" else None,
+                      "grammar_min_depth": 1 + shape}
         try:
             out = list(init.initialize(problem, rep, rnd, k))
         except Exception as e:
